@@ -262,7 +262,7 @@ func c02(r *core.Run) {
 		if !has {
 			continue
 		}
-		fl := &core.Flow{Fn: fn, Entry: core.StateSet(0).Add(0), Inline: p.IsPrivateHelper}
+		fl := &core.Flow{Fn: fn, Entry: core.StateSet(0).Add(0), Inline: p.IsPrivateHelper, Tags: true}
 		fl.Transfer = func(in ssa.Instruction, s int) core.StateSet {
 			switch x := in.(type) {
 			case *ssa.Store:
@@ -314,16 +314,44 @@ func c02Drain(r *core.Run, a *svcAnchors) {
 	// the counter: index used on the queue
 	var idx ssa.Value
 	var elemCalls []ssa.CallInstruction
-	for _, c := range core.Calls(fn) {
+	// an element call: the dynamic call of queue[counter], or the call of a private helper that is
+	// handed queue[counter] and calls that parameter (e.g. "run with the lock released")
+	isElemCall := func(c ssa.CallInstruction) (ssa.Value, bool) {
 		if core.IsDynamic(c) && isQueueElem(c.Common().Value, a.WQueue) {
+			return c.Common().Value, true
+		}
+		if cal := c.Common().StaticCallee(); cal != nil && p.IsPrivateHelper(cal) {
+			for i, arg := range c.Common().Args {
+				if !isQueueElem(arg, a.WQueue) || i >= len(cal.Params) {
+					continue
+				}
+				n := 0
+				for _, hc := range core.Calls(cal) {
+					if core.IsDynamic(hc) && hc.Common().Value == ssa.Value(cal.Params[i]) && !core.IsGo(hc) && !core.IsDefer(hc) {
+						n++
+					}
+				}
+				if n == 1 {
+					return arg, true
+				}
+			}
+		}
+		return nil, false
+	}
+	for _, c := range core.Calls(fn) {
+		if ev, ok := isElemCall(c); ok {
 			elemCalls = append(elemCalls, c)
-			ia := c.Common().Value.(*ssa.UnOp).X.(*ssa.IndexAddr)
+			ia := ev.(*ssa.UnOp).X.(*ssa.IndexAddr)
 			idx = ia.Index
 		}
 	}
 	phi, ok := idx.(*ssa.Phi)
 	if !ok {
-		r.Bad("Q2", fname, "counter-is-loop-phi", p.Pos(fn.Pos()), "the drain index is not a loop-carried counter: "+valDesc(idx))
+		d := "none found"
+		if idx != nil {
+			d = valDesc(idx)
+		}
+		r.Bad("Q2", fname, "counter-is-loop-phi", p.Pos(fn.Pos()), "the drain index is not a loop-carried counter: "+d)
 		return
 	}
 	startsAt0, stepOne := false, true
@@ -384,7 +412,7 @@ func c02Drain(r *core.Run, a *svcAnchors) {
 			}
 			return core.StateSet(0).Add(s)
 		}
-		if c, ok := in.(ssa.CallInstruction); ok && core.IsDynamic(c) && isQueueElem(c.Common().Value, a.WQueue) {
+		if c, ok := in.(ssa.CallInstruction); ok && func() bool { _, is := isElemCall(c); return is }() {
 			switch s {
 			case zero:
 				return core.StateSet(0).Add(one)
